@@ -32,12 +32,14 @@ CONSTANTS Chans,       \* subset of {"workflow", "action", "reusable", "config"}
           Tags,        \* explicit tags used by the generator (subset of AllTags \ {"none"})
           Depths,      \* nesting depths
           LongReps,    \* repetition counts of the long scalars
+          ExprDepths,  \* nesting depths of the expression shapes
+          ChainDepths, \* lengths of the merge / alias chains
           CollTags,    \* tags put on collections of the decoder channels (subset of AllCollTags)
           RecogAll,    \* recogniser-derived expression texts at every scalar position (FALSE: first scalar of each domain)
           ExprLen      \* `${{`-fragments: all sequences over ExprAlpha up to this length (at one position per domain)
 
 AllChans == {"workflow", "action", "reusable", "config"}
-AllMutKinds == {"scalar", "seq", "map", "alias", "anchored", "tagged", "merge", "key", "nest", "long", "expr", "root", "recog", "cycle", "multi"}
+AllMutKinds == {"scalar", "seq", "map", "alias", "anchored", "tagged", "merge", "key", "nest", "long", "expr", "root", "recog", "cycle", "multi", "depth"}
 AllTags == {"none", "!!str", "!!int", "!!float", "!!bool", "!!null", "!!binary", "!!timestamp", "!verif"}
 Outcomes == {"clean", "diag", "fatal"}
 \* what the PROPERTY allows on every channel, and what the DESIGN produces per channel (narrower; a difference
@@ -246,11 +248,12 @@ Anch(f, name) == [f EXCEPT !.anchor = name]
 
 NullLike(f) == f.k = "s" /\ (f.tag = "!!null" \/ (f.tag = "none" /\ f.toks \in {<<"~">>, <<"null">>, <<"Null">>, <<"NULL">>}))
 KindOf(f) == CASE f.k = "s" -> IF NullLike(f) THEN "null" ELSE "s"
-               [] f.k \in {"rep", "sx"} -> "s"
+               [] f.k \in {"rep", "sx", "px"} -> "s"
+               [] f.k = "chain" -> "m"
                [] f.k = "q" -> "q"
                [] f.k = "m" -> "m"
                [] f.k = "a" -> "alias"
-               [] f.k = "nest" -> f.toks[1]
+               [] f.k = "nest" -> IF f.toks[1] = "m" THEN "m" ELSE "q"
 \* what a decoder sees: the target of the alias
 KindD(f) == IF f.k = "a" THEN f.toks[1] ELSE KindOf(f)
 
@@ -492,7 +495,7 @@ H1 == "VERIFHOLE1"
 H2 == "VERIFHOLE2"
 SetHole(p, h) == [op |-> "set", path |-> p, v |-> h, st |-> ""]
 FrontAnchor(h) == [op |-> "ins", path |-> <<>>, at |-> 1, key |-> "x-anchors", case |-> "", val |-> [k |-> "s", v |-> h, st |-> ""]]
-TagOf(f) == IF f.k \in {"s", "rep", "sx", "q", "m"} THEN f.tag ELSE "none"
+TagOf(f) == IF f.k \in {"s", "rep", "sx", "px", "q", "m"} THEN f.tag ELSE "none"
 
 Vec(mut, label, ops, holes, decos, exp) ==
   [prop |-> "C01", ch |-> ch, b |-> b, path |-> path, site |-> Site, tk |-> HereU.k, dom |-> DomHere,
@@ -521,7 +524,7 @@ EmitMap == /\ "map" \in MutKinds /\ tc = Nav /\ path # <<>>
            /\ \E g \in (IF ch = "workflow" THEN {"none", "!!map", "!!str", "!!null", "!verif"} ELSE CollTags) : \E f \in MapFrags(g) : tc' = ToJson(ReplaceVec("map", g, f))
            /\ UNCHANGED <<ch, b, path>>
 EmitNest == /\ "nest" \in MutKinds /\ tc = Nav /\ path # <<>>
-            /\ \E n \in Depths, kd \in {"q", "m"} : tc' = ToJson(ReplaceVec("nest", kd, FNest(kd, n)))
+            /\ \E n \in Depths, kd \in {"q", "m", "qm"} : tc' = ToJson(ReplaceVec("nest", kd, FNest(kd, n)))
             /\ UNCHANGED <<ch, b, path>>
 EmitLong == /\ "long" \in MutKinds /\ tc = Nav /\ IsScalarPos
             /\ \E n \in LongReps, g \in {"none", "!!str"}, i \in {1, 2} :
@@ -646,6 +649,42 @@ EmitCycle ==
                                  <<[path |-> anc, pre |-> "&c"]>>, CycExp))
   /\ UNCHANGED <<ch, b, path>>
 
+\* DEPTH family: inputs far inside the size bound whose NESTING is deep.  An expression shape is pre^n leaf post^n;
+\* the harness repeats the parts (fragment kind "px": toks = <<head, pre, leaf, post, tail>>, n = depth).
+FPx(head, sh, tail, n) == Frag("px", "none", "", <<head, sh[1], sh[2], sh[3], tail>>, <<>>, <<>>, n)
+ExprShapes == << <<"!(", "true", ") && true">>,           \* negated, parenthesised && chain (narrowing at every level)
+                 <<"(", "true", " && true)">>,             \* left nested
+                 <<"(true || ", "false", ")">>,            \* right nested
+                 <<"(!(github.ref == 'a' && ", "true", ") || false)">>,
+                 <<"!", "github.ref", "">>,                \* !!!!...x
+                 <<"(", "1", ")">>,
+                 <<"github.event[", "0", "]">>,            \* a[b[c[...]]]
+                 <<"format(", "'x'", ")">>,                \* f(f(f(...)))
+                 <<"fromJSON(toJSON(", "github", "))">>,
+                 <<"contains(github.ref, ", "'x'", ") && true">>,
+                 <<"", "github", ".event">>,               \* a.b.c....
+                 <<"", "github.event", ".*">>,
+                 <<"", "true", " && !false || 1 == 1">>,   \* long flat operator chain
+                 <<"", "github.event", "['a'].b[0]">> >>
+\* merge / alias chain of n anchored mappings, each merging the previous one (fragment kind "chain")
+FChain(prefix, n) == Frag("chain", "none", prefix, <<>>, <<>>, <<>>, n)
+DepthWraps(dom) == CASE dom = "ifcond" -> {<<"", "">>, <<"${{ ", " }}">>, <<"${{ ", " }} && true">>}
+                     [] dom = "script" -> {<<"echo ${{ ", " }}">>}
+                     [] OTHER -> {<<"${{ ", " }}">>}
+EmitDepth ==
+  /\ "depth" \in MutKinds /\ tc = Nav
+  /\ \/ /\ IsScalarPos
+        /\ DomHere \in {"template", "script", "ifcond", "expr", "bool", "int", "float", "raw", "str"}
+        /\ IF RecogAll /\ DomHere \in {"script", "ifcond", "expr"} THEN TRUE ELSE FirstDom(RootT, Doc, <<>>, DomHere) = path
+        /\ \E j \in DOMAIN ExprShapes, n \in ExprDepths, w \in DepthWraps(DomHere) :
+             tc' = ToJson(ReplaceVec("depth", "expr-" \o ToString(j), FPx(w[1], ExprShapes[j], w[2], n)))
+     \/ /\ Here.k = "m" /\ HereT.k \in {"map", "raw"}
+        /\ \E n \in ChainDepths, how \in {"<<", "x-chain"} :
+             tc' = ToJson(Vec("depth", "alias-chain", <<FrontAnchor(H2), InsHere(NKids(Here) + 1, how, H1)>>,
+                              <<[id |-> H1, f |-> FAlias("c" \o ToString(n), "m")], [id |-> H2, f |-> FChain("c", n)]>>, <<>>,
+                              IF ch = "workflow" THEN "diag" ELSE "any"))
+  /\ UNCHANGED <<ch, b, path>>
+
 \* several files in one run, inside and OUTSIDE a project (no .git / .github/workflows above them: the caches of
 \* local actions and local reusable workflows are the null caches then)
 MultiUses == UNION {NearMiss(x) : x \in CallUsesSeeds} \cup {<<"./foo.yml", "@", "main">>, <<"./", "act">>, <<"./">>, <<"./", "missing">>}
@@ -668,7 +707,7 @@ EmitRoot ==
   /\ UNCHANGED <<ch, b, path>>
 
 Next == Start \/ Descend \/ EmitRecog \/ EmitScalar \/ EmitSeq \/ EmitMap \/ EmitNest \/ EmitLong \/ EmitExpr \/ EmitAlias
-        \/ EmitTagged \/ EmitAnchored \/ EmitMerge \/ EmitKey \/ EmitRoot \/ EmitCycle \/ EmitMulti
+        \/ EmitTagged \/ EmitAnchored \/ EmitMerge \/ EmitKey \/ EmitRoot \/ EmitCycle \/ EmitMulti \/ EmitDepth
 Spec == Init /\ [][Next]_vars
 
 NodesTyped == tc = Nav => HereT.k # "none"
